@@ -175,10 +175,12 @@ impl IndicatorInstance for TrendStrengthIndexInstance {
 		let sma = self.inverted_period * self.sy;
 		let p = (self.wma.next(&src) - sma) * self.sx;
 
-		// sy2 is always greater than sma * sy, so q is always positive
+		// In exact arithmetic sy2 is never less than sma * sy, so q is never negative. With floating point
+		// values the difference of two nearly equal sums may come out as zero or slightly negative when the
+		// window is (almost) flat; there is no trend to measure then.
 		let q = self.k * sma.mul_add(-self.sy, self.sy2);
 
-		let value = p / q.sqrt();
+		let value = if q > 0. { p / q.sqrt() } else { 0. };
 
 		let cross_signal = self.cross_under.next(&(value, self.cfg.zone))
 			- self.cross_above.next(&(value, -self.cfg.zone));
